@@ -72,6 +72,11 @@ def run(v) -> None:
                         calls.append(dict(op=op, gulp=gulp, start=start, nsamps=nsamps, **rng.choice(vs)))
         rng.shuffle(calls)
         calls = calls[: (90 if quick else 500)]
+        # always present (not drawn): whole-file calls whose LAST write is shorter than the ones before it (gulps n-2 and n-1)
+        for op in ("extract_samps", "invert", "mask"):
+            for gulp in (max(2, n - 2), n - 1):
+                vs = variants(op, n, c, nbits, rng, True)
+                calls.insert(0, dict(op=op, gulp=gulp, start=0, nsamps=n, **vs[0]))
         for j in range(0, len(calls), 15):
             sid += 1
             k = 1 + (j // 15) % 2
@@ -98,6 +103,10 @@ def run(v) -> None:
                     v.violation("WellFormedHeader", SITES[rec["op"]], cfg, "output file header does not parse", "complete header")
                     continue
                 hdr = {k: m[k] for k in ("hdrlen", "nbits", "nchans", "final_data", "final_vals", "final_isint")}
+                C_in = r["hdr"]["nchans"]
+                known = rec["op"] == "extract_samps" and rec["outcome"] == "ok"
+                hdr["expect_known"] = bool(known)
+                hdr["expect"] = r["hdr"]["vals"][rec["start"] * C_in:(rec["start"] + rec["nsamps"]) * C_in] if known else []
                 ev = [dict(e, a="w", cut=0, size_at_return=0) for e in m["events"]]
                 if rec["outcome"] == "ok":
                     ev.append({"a": "ret", "kind": "", "size": 0, "hdr_same": True, "data": [], "ro_ok": True, "ro_ns": 0,
